@@ -784,13 +784,22 @@ def _snap_hooks():
 
     def len_hook(eng, st, x):
         if isinstance(x, SnapshotV):
-            n = smt.fresh('snap_len', smt.Int)
-            st.pc.append(n >= 0)
+            # one pass over the pipeline yields NIT pairs; dict(pairs) has ND <= NIT entries, equal iff the keys are unique
+            nit = st.ghost.get('snap_items_len')
+            if nit is None:
+                nit = IntV(smt.fresh('n_yielded_pairs', smt.Int))
+                st.pc.append(nit.t >= 0)
+                st.ghost['snap_items_len'] = nit
             if x.derived == 'dict':
-                x.len_term = n
-            else:
-                x.len_term = n
-            return [(st, IntV(n))]
+                nd = smt.fresh('n_distinct_keys', smt.Int)
+                nodup = getattr(x, 'nodup', None)
+                if nodup is None:
+                    nodup = x.nodup = smt.fresh('keys_are_unique', smt.Bool)
+                st.pc += [nd >= 0, nd <= nit.t, (nd == nit.t) == nodup]
+                x.len_term = nd
+                return [(st, IntV(nd))]
+            x.len_term = nit.t
+            return [(st, IntV(nit.t))]
         return None
 
     def eq_hook(eng, st, a, b):
@@ -813,7 +822,14 @@ def _from_dataset_post(S, o):
     v = o.value
     ok = isinstance(v, StageV) and v.cls in ('from_dict', 'from_list') and v.args and isinstance(v.args[0], SnapshotV) \
         and v.args[0].source is d
-    out = [('C10:eager-caching-stores-a-snapshot-taken-by-passes-over-the-pipeline-at-call-time', z3.BoolVal(bool(ok))),
+    lost = []
+    if ok and v.cls == 'from_dict':
+        snap = v.args[0]
+        nodup = getattr(snap, 'nodup', None)
+        # a dict keeps one example per key: it may only be chosen when the pass yielded no key twice
+        lost = [('C01:from_dataset-keeps-every-example(a-dict-is-chosen-only-for-unique-keys)',
+                 nodup if nodup is not None else smt.F)]
+    out = lost + [('C10:eager-caching-stores-a-snapshot-taken-by-passes-over-the-pipeline-at-call-time', z3.BoolVal(bool(ok))),
            ('C10:at-most-one-successful-pass(one-evaluation-per-example)', z3.BoolVal(len(passes) == 1)),
            ('C09:the-snapshot-goes-through-the-serialising-constructor',
             z3.BoolVal(bool(ok) and v.kwargs.get('immutable_warranty') is env['immutable_warranty']))]
@@ -845,7 +861,7 @@ class FromDatasetC(FuncContract):
     cls = None
     methods = {'from_dataset': [Variant('snapshot', params={'examples': 'ds', 'immutable_warranty': (lambda e, s: StrV('pickle')),
                                                             'name': 'none'},
-                                        post=_from_dataset_post, hooks=_snap_hooks(), props=('C10', 'C09'))]}
+                                        post=_from_dataset_post, hooks=_snap_hooks(), props=('C10', 'C09', 'C01'))]}
 
 
 from contracts.factories import DatasetC as _DatasetC     # noqa
